@@ -16,6 +16,12 @@ func FormatFor(group string, order *big.Int) (Format, error) {
 		return &WXY{C: P256, CoefLen: 32, Prefix: 4}, nil
 	case "qr512":
 		return NewQR(order)
+	case "qr43", "qr72":
+		for _, rp := range ExtraResidueGroups() {
+			if rp.Name == group {
+				return NewQRParams(group, rp.P, rp.Q, rp.G)
+			}
+		}
 	case "bn256-g1":
 		return &WXY{C: BN256G1, CoefLen: 32, Prefix: -1}, nil
 	case "bn256-g2":
@@ -37,5 +43,49 @@ func (f *WXY) EncodeMul(k *big.Int) []byte { return f.Encode(f.C.Mul(k, f.base))
 func (f *ZC) EncodeMul(k *big.Int) []byte  { return f.Encode(f.C.Mul(k, f.base)) }
 func (Ed) EncodeMul(k *big.Int) []byte     { return EdEncode(EdMul(k, EdBase())) }
 func (f *QR) EncodeMul(k *big.Int) []byte {
-	return beBytes(new(big.Int).Exp(big.NewInt(4), k, f.P), f.Size())
+	return beBytes(new(big.Int).Exp(f.G, k, f.P), f.Size())
+}
+
+// ResidueParams are Schnorr-group parameters with cofactor R > 2, certified
+// with math/big: P, Q prime, P = Q*R+1, G = h^R mod P != 1.
+type ResidueParams struct {
+	Name       string
+	P, Q, R, G *big.Int
+}
+
+// ExtraResidueGroups returns the parameter sets the harness instantiates
+// with the library's own ResidueGroup.SetParams in addition to the stock
+// QR512 suite (whose cofactor 2 makes "square" and "in the subgroup"
+// coincide): a tiny one (P = 43, Q = 7, R = 6) whose whole encoding space is
+// enumerated, and a DSA-style one with a 65-bit Q found by deterministic search.
+func ExtraResidueGroups() []ResidueParams {
+	mk := func(name string, p, q *big.Int) ResidueParams {
+		r := new(big.Int).Div(new(big.Int).Sub(p, big.NewInt(1)), q)
+		g := new(big.Int)
+		for h := int64(2); ; h++ {
+			g.Exp(big.NewInt(h), r, p)
+			if g.Cmp(big.NewInt(1)) != 0 {
+				break
+			}
+		}
+		if _, err := NewQRParams(name, p, q, g); err != nil || new(big.Int).Add(new(big.Int).Mul(q, r), big.NewInt(1)).Cmp(p) != 0 || r.Cmp(big.NewInt(2)) <= 0 {
+			panic(fmt.Sprintf("refmodel: residue parameters %s not certified: %v", name, err))
+		}
+		return ResidueParams{Name: name, P: p, Q: q, R: r, G: g}
+	}
+	out := []ResidueParams{mk("qr43", big.NewInt(43), big.NewInt(7))}
+	// Q = first prime above 2^64; R = smallest even cofactor >= 6 with Q*R+1 prime
+	q := new(big.Int).Lsh(big.NewInt(1), 64)
+	for !q.ProbablyPrime(32) {
+		q.Add(q, big.NewInt(1))
+	}
+	for r := int64(6); ; r += 2 {
+		p := new(big.Int).Mul(q, big.NewInt(r))
+		p.Add(p, big.NewInt(1))
+		if p.ProbablyPrime(32) {
+			out = append(out, mk("qr72", p, q))
+			break
+		}
+	}
+	return out
 }
